@@ -43,15 +43,16 @@ def in_class(case, w):
     pos = 0
     for kind, val in leaves_of(ders[0]):
         text = "".join(chr(c) for c in val)
+        rest = w[pos:]          # a terminal is matched against the rest of the input on its own (no left context)
         for p in pats:
             if p.fullmatch(text):
-                m = p.match(w, pos)
-                if m is None or m.end() != pos + len(text):
+                m = p.match(rest)
+                if m is None or m.end() != len(text):
                     return False
             else:
                 # a regex that could start here and swallow part of this leaf and beyond also makes the split non-unique
-                m = p.match(w, pos)
-                if m is not None and m.end() > pos + len(text):
+                m = p.match(rest)
+                if m is not None and m.end() > len(text):
                     return False
         pos += len(text)
     return True
